@@ -61,10 +61,10 @@ func (e *Exec) execStmt(st *State, s ast.Stmt, label string) *State {
 	e.curPos = s.Pos()
 	e.syncCtx(st.pc.S)
 	if ct := e.curContract(); ct != nil && len(ct.Hints) > 0 && e.depth == 0 {
-		e.applyHints(st, s, ct, false)
+		e.applyHints(st, s, ct, false, nil)
 		out := e.execStmt1(st, s, label)
 		if !out.dead {
-			e.applyHints(out, s, ct, true)
+			e.applyHints(out, s, ct, true, nil)
 		}
 		return out
 	}
@@ -72,7 +72,7 @@ func (e *Exec) execStmt(st *State, s ast.Stmt, label string) *State {
 }
 
 // applyHints performs the ghost lemma applications anchored at statement s.
-func (e *Exec) applyHints(st *State, s ast.Stmt, ct *Contract, after bool) {
+func (e *Exec) applyHints(st *State, s ast.Stmt, ct *Contract, after bool, extra map[string]TV) {
 	var src string
 	for _, h := range ct.Hints {
 		if h.After != after {
@@ -101,6 +101,9 @@ func (e *Exec) applyHints(st *State, s ast.Stmt, ct *Contract, after bool) {
 			}
 			defer func() { e.specPos = saved }()
 			env := e.localEnv(st)
+			for k, v := range extra {
+				env.vars[k] = v
+			}
 			var args []TV
 			for _, a := range h.Args {
 				args = append(args, e.tr(a.E, env))
@@ -539,6 +542,18 @@ func (e *Exec) execReturn(st *State, s *ast.ReturnStmt) {
 		for i, o := range resObjs {
 			st.vars[o] = e.bind("res", e.toSort(vals[i], e.resultSort(e.curContract(), i, o.Type())))
 		}
+	}
+	// `after "return ..." apply lemma(...)`: ghost step between the evaluation of the results and the postconditions
+	if ct := e.curContract(); ct != nil && len(ct.Hints) > 0 && e.depth == 0 {
+		extra := map[string]TV{}
+		for i, o := range resObjs {
+			tv := TV{st.vars[o], o.Type()}
+			extra[fmt.Sprintf("res%d", i)] = tv
+			if i == 0 {
+				extra["res"] = tv
+			}
+		}
+		e.applyHints(st, s, ct, true, extra)
 	}
 	// find the innermost inline frame, if any
 	for i := len(e.frames) - 1; i >= 0; i-- {
